@@ -10,7 +10,10 @@
 (*              "self" (tls self_signed a.test) | "none" (a block with no  *)
 (*              loader: `tls { protocols ... }`) | "bogus" (unknown loader)*)
 (*              | "odd" (tls file with three arguments) | "filedir" (the   *)
-(*              loader named by a `loader` directive inside the block);    *)
+(*              loader named by a `loader` directive inside the block) |   *)
+(*              "named" (`tls &NAME` referring to a block `tls.loader.file *)
+(*              NAME { certs A B; keys A B }`) | "namedmis" (the same with *)
+(*              two certs and one key);                                    *)
 (*              client: "client" | "clientcert" (cert + key configured) |  *)
 (*              "clienthalf" (only cert configured)                        *)
 (*   protocols, ciphers, curves   the arguments of the directive;          *)
@@ -71,12 +74,14 @@ CurveChoices ==
   \cup (IF Depth >= 2 THEN {<<"p521">>, <<"X25519", "p256">>, <<"P256">>, <<"p256", "bogus">>} ELSE {})
 
 Serving == {"file", "file2", "self", "none", "filedir"}
+Named == {"named", "namedmis"}
 ClientModes == {"client", "clientcert", "clienthalf"}
 Row(sc, m, p, c, k) == [scope |-> sc, mode |-> m, protocols |-> p, ciphers |-> c, curves |-> k]
 Rows ==
   (IF "server" \in Scopes
    THEN {Row("server", m, p, c, k) : m \in Serving, p \in ProtoChoices, c \in CipherChoices, k \in CurveChoices}
         \cup {Row("server", m, p, OMIT, OMIT) : m \in {"off", "bogus", "odd"}, p \in {OMIT, <<"tls1.2">>, <<"ssl3">>}}
+        \cup {Row("server", m, p, OMIT, OMIT) : m \in Named, p \in ProtoChoices}
    ELSE {})
   \cup
   (IF "client" \in Scopes
@@ -93,9 +98,9 @@ ToSetS(s) == {s[i] : i \in 1..Len(s)}
 BadProto(p) == p # OMIT /\ (Len(p) \notin {1, 2} \/ \E i \in 1..Len(p) : ~IsVer(p[i]))
 BadCipher(c) == c # OMIT /\ (c = <<>> \/ \E i \in 1..Len(c) : c[i] \notin CipherNames)
 BadCurve(k) == k # OMIT /\ (k = <<>> \/ \E i \in 1..Len(k) : k[i] \notin CurveU)
-BlockRead(i) == i.mode \in Serving \cup ClientModes          \* the block of `tls off` / a failed loader is never read
+BlockRead(i) == i.mode \in Serving \cup ClientModes \cup {"named"}          \* the block of `tls off` / a failed loader is never read
 ConfigError(i) ==
-  \/ i.mode \in {"bogus", "odd"}
+  \/ i.mode \in {"bogus", "odd", "namedmis"}
   \/ BlockRead(i) /\ (BadProto(i.protocols) \/ BadCipher(i.ciphers) \/ BadCurve(i.curves))
 
 DefaultMin(i, devs) == IF i.scope = "client" /\ "ClientDefaultMin12" \in devs THEN 2 ELSE 0
@@ -139,7 +144,7 @@ Same(i, o, r) ==
 (***************************************************************************)
 Viol(i, o) ==
   LET ok == ~ConfigError(i) /\ ~o.err
-      live == i.mode \in {"file", "file2", "self", "filedir"} \cup ClientModes
+      live == i.mode \in {"file", "file2", "self", "filedir", "named"} \cup ClientModes
   IN (IF ConfigError(i) /\ ~o.err THEN {"UnknownNameAccepted"} ELSE {})
      \cup (IF ~ConfigError(i) /\ i.mode # "none" /\ o.err THEN {"ValidConfigRefused"} ELSE {})
      \cup (IF i.mode = "off" /\ o.starttls THEN {"OffAdvertisesStarttls"} ELSE {})
